@@ -100,6 +100,15 @@ def gen_points(rng, fmt, prog, n):
         if rng.random() < 0.5:
             a, b = b, a
         pts.append(("edge", rnd_sign(a), rnd_sign(b)))
+    # (c') threshold BANDS: both components within a factor 2^4 of (possibly different) threshold constants, log-uniform inside
+    # the band — a changed threshold damages a region that is thin in one direction only when seen through the other
+    # component (e.g. big component in [T, 8T) while the other is a few octaves below another threshold T')
+    def band(t):
+        e = (t & ~sign) >> (p - 1)
+        e = max(0, min((1 << ew) - 2, e + rng.randrange(-4, 5)))
+        return (e << (p - 1)) | rng.getrandbits(p - 1)
+    for _ in range(n):
+        pts.append(("band", rnd_sign(band(rng.choice(ths))), rnd_sign(band(rng.choice(ths)))))
     # (d) special lattice (finite and infinite)
     L = [0, 1, 1 << (p - 1), bias << (p - 1), inf - 1, inf]
     L = L + [v | sign for v in L]
